@@ -16,7 +16,9 @@
    finalnl <hexsrc> -> hex of final_newline (phase 9 model)
    phase <6|7|8|8orig|9> <hexsrc> [<toplevel line numbers, comma separated>]
      -> hex of the output of the modelled phase of format.rs (coq/FormatPhases.v) on that text
-        (8 = current code, 8orig = before fix-5) *)
+        (8 = current code, 8orig = before fix-5)
+   nounclosed <hexsrc> -> 1 when the model lexer meets no unclosed string literal in the text
+        (the hypothesis of the text-level idempotence theorems), else 0 *)
 open Mdl
 open Driver_core
 
@@ -116,4 +118,9 @@ let () = register "phase" (fun args ->
     | "8" :: h :: _ -> ea_hex (phase8 true (ea_src h))
     | "8orig" :: h :: _ -> ea_hex (phase8 false (ea_src h))
     | "9" :: h :: _ -> ea_hex (phase9 (ea_src h))
+    | _ -> "error\targs")
+
+let () = register "nounclosed" (fun args ->
+    match args with
+    | [h] -> if no_unclosed (ea_src h) then "1" else "0"
     | _ -> "error\targs")
